@@ -1,6 +1,6 @@
 """C06 — slab and fault geometry (structural necessary conditions only)."""
 from .. import facts, run
-from ..rules import segments, pure
+from ..rules import dep, segments, pure
 
 
 def main(tier):
@@ -11,8 +11,12 @@ def main(tier):
     segments.plane_call_sites(P, rep)
     segments.line_siblings(P, rep)
     segments.kernel_interpolation(P, rep)
+    segments.nearest_segment_selection(P, rep)
+    dep.culling(P, rep)      # membership iff the distances are in range: the shortcuts in front must not discard members
+    dep.accumulators(P, rep)
     rep.assumptions.append("the line/arc construction itself (Utilities::distance_point_from_curved_planes, 650 lines of trigonometry over reals) "
-                           "and the Newton closest-point search are NOT decided: a change inside them is invisible to this check")
+                           "and the Newton closest-point search are NOT decided, except for the selection of the nearest segment (absolute distances, "
+                           "candidate within its segment): other changes inside them are invisible to this check")
     # the answer does not depend on what was queried before (no cache that outlives a query: a necessary condition for a
     # statement about 'all worlds and all points', which includes a second world in the same process)
     pure.run(P, rep, pure.query_roots(P))
